@@ -57,6 +57,12 @@ cases = [
     parsed("1 2 ", AND(s(1), s(2)), [dict(op("iand", AND(s(3), s(4))), xt="3 4 $ c"), op("ior", s(5)), W]),
     parsed("1 (2 3)", AND(s(1), PAR(AND(s(2), s(3)))), [dict(op("iand", AND(s(4), s(5))), xt="4 5 $ c"), W]),
     parsed("(1 2)", PAR(AND(s(1), s(2))), [dict(op("iand", AND(s(4), s(5))), xt="4 5 $ c"), W, W]),
+    # the operator setter: __switch_operator with a new symbol
+    parsed("1 2", AND(s(1), s(2)), [{"k": "setop", "o": "union"}, W, {"k": "setop", "o": "inter"}, W]),
+    parsed("1 : 2", OR(s(1), s(2)), [{"k": "setop", "o": "inter"}, W, W]),
+    parsed("-1 $ c\n     2", AND(s(1, "-"), s(2)), [{"k": "setop", "o": "union"}, W]),
+    parsed("(1:2)(3:4)", AND(PAR(OR(s(1), s(2))), PAR(OR(s(3), s(4)))), [{"k": "setop", "o": "union"}, W]),
+    parsed("1 2 3", AND(AND(s(1), s(2)), s(3)), [W, {"k": "setop", "o": "union"}, op("and", s(4)), W]),
 ]
 json.dump({"what": "minimised cases of the C02 defects repaired on branch fix-C02", "cases": cases},
           open(os.path.join(here, "fixed_defects.json"), "w"), indent=1, sort_keys=True)
